@@ -2,6 +2,7 @@ package checks
 
 import (
 	"fmt"
+	"net/url"
 	"os"
 	"path/filepath"
 	"sort"
@@ -393,6 +394,14 @@ func c06Specs(tier string) []*h.SeqSpec {
 				if rr := w.PutManifest("q", odd.Dig, odd.MT, odd.Data); rr.Status == 201 {
 					m.PushManifest(odd, "")
 					m.Limbo["Odd"] = true
+				}
+				return nil
+			}})
+			// a mount whose source lacks the blob opens an ordinary session in p; the source q must stay collectable
+			ops = append(ops, h.Op{Name: "POST mount into p of a blob that q lacks (from=q), session cancelled", Do: func(w *h.World) []h.Violation {
+				r := w.Do(h.Req{Method: "POST", Path: "/v2/p/blobs/uploads/", Query: "mount=" + url.QueryEscape(f.Items["l2"].Dig) + "&from=q"})
+				if loc := r.H.Get("Location"); r.Status == 202 && loc != "" {
+					w.Delete(loc)
 				}
 				return nil
 			}})
